@@ -142,7 +142,7 @@ func hostileTxs(rng *rand.Rand, hr *HistRun, st *MState, h int64, n int) []hosti
 			case 0:
 				tx.Type = rctypes.TRX_UNSTAKING
 				tx.To = g.pick(g.All).Addr
-				tx.Payload = &rctypes.TrxPayloadUnstaking{TxHash: make([]byte, []int{0, 1, 31, 33, 64}[rng.Intn(5)])}
+				tx.Payload = &rctypes.TrxPayloadUnstaking{TxHash: make([]byte, []int{0, 1, 31, 32, 32, 33, 64}[rng.Intn(7)])}
 			case 1:
 				tx.Type = rctypes.TRX_VOTING
 				tx.Payload = &rctypes.TrxPayloadVoting{TxHash: make([]byte, []int{0, 1, 31, 33, 64}[rng.Intn(5)]), Choice: []int32{-1, 0, 1 << 30, -1 << 31}[rng.Intn(4)]}
@@ -427,6 +427,14 @@ func jsonNonce(v []byte) uint64 {
 // delayedProposalCrashes: hostile-but-accepted governance options are voted in and run to their
 // applying height; the node must survive BeginBlock/EndBlock/Commit of every later block.
 func (c *Ctx) delayedProposalCrashes() {
+	type dcase struct {
+		optType int32
+		options [][]byte
+	}
+	var dcases []dcase
+	for _, ot := range []int32{0x0200, 0, 0x0100, -1, 0x0201} {
+		dcases = append(dcases, dcase{ot, nil}, dcase{ot, [][]byte{}}, dcase{ot, [][]byte{nil}}, dcase{ot, [][]byte{[]byte("free text")}})
+	}
 	options := []string{
 		`{"slashRatio":"77","gasPrice":""}`,
 		`{"gasPrice":""}`,
@@ -437,9 +445,13 @@ func (c *Ctx) delayedProposalCrashes() {
 		`{"unknownField":"1"}`,
 		`{"slashRatio":"20"} `,
 	}
-	c.Parallel(len(options), 0, func(k int) {
+	for _, o := range options {
+		dcases = append(dcases, dcase{optGovParams, [][]byte{[]byte(o)}})
+	}
+	c.Parallel(len(dcases), 0, func(k int) {
 		i := 1000 + k
-		opt := options[k]
+		dc := dcases[k]
+		opt := fmt.Sprintf("optType=%#x options=%q", dc.optType, dc.options)
 		o := basePreset()
 		o.Name = fmt.Sprintf("C09-delayed%d", k)
 		o.Params = baseParams()
@@ -466,7 +478,7 @@ func (c *Ctx) delayedProposalCrashes() {
 			switch h {
 			case 3:
 				ti := mkv(g.G.Validators[0].Key, rctypes.TRX_PROPOSAL, &rctypes.TrxPayloadProposal{Message: "hostile", StartVotingHeight: 4, VotingPeriodBlocks: 1,
-					ApplyingHeight: 7, OptType: optGovParams, Options: [][]byte{[]byte(opt)}}, "hostile-proposal")
+					ApplyingHeight: 7, OptType: dc.optType, Options: dc.options}, "hostile-proposal")
 				propHash = addrBytes(ti.Hash)
 				txs = append(txs, ti)
 				b.Txs = append(b.Txs, ti.Raw)
